@@ -329,8 +329,7 @@ class LockEngine:
             for adt in t.get("owners", []):
                 if adt in self.drop_exempt:
                     continue
-                d = "<%s as core::ops::drop::Drop>::drop" % adt
-                if d in P.bodies:
+                for d in P.drop_bodies(adt):
                     out += [(i, ("drop glue",) + c, e) for i, c, e in self.inst(F, d, None)]
             return out
         return []
